@@ -4,7 +4,11 @@ A scenario is a list of ops mirroring Model/Blocks.v `wop`:
   ("WLeaf",)            Point()
   ("WTerm", tree)       a combination of existing objects built with the real operators (harness/terms.py trees,
                         PVar v = object number v)
-  ("WPart", d)          pep.declare_block_partition(d)
+  ("WPart", d, how)     how = "pep": pep.declare_block_partition(d); "other": the same through ANOTHER PEP object
+                        (declare_block_partition is a staticmethod); "ctor": BlockPartition(d), the class constructor.
+                        All three register the partition in BlockPartition.list_of_partitions.
+  ("WSolve",)           pep.solve() through the recording wrapper (harness/recording.py): dump of every scalar
+                        constraint in pep._list_of_constraints_sent_to_wrapper (the PEP has nothing else to send)
   ("WGet", p, obj, k)   partitions[p].get_block(objects[obj], k); on the first decomposition of an object the d
                         block objects become objects number len(objects) ... len(objects)+d-1
   ("WCons", p)          partitions[p].add_partition_constraints(); dump of partitions[p].list_of_constraints
@@ -32,10 +36,16 @@ def gen_scenario(rng, nops=None, max_dec=4):
     for _ in range(rng.randint(1, 3)):
         ops.append(("WLeaf",))
         nobj += 1
-    ops.append(("WPart", rng.choice([1, 2, 2, 3, 3, 4])))
-    parts.append(ops[-1][1])
-    dec.append([])
+    def new_part():
+        ops.append(("WPart", rng.choice([1, 2, 2, 3, 3, 4]), rng.choice(["pep", "pep", "ctor", "ctor", "other"])))
+        parts.append(ops[-1][1])
+        dec.append([])
+
+    if rng.random() < 0.25:         # a partition declared before anything else, often never used
+        new_part()
+    new_part()
     mid_cons = rng.random() < 0.3
+    mid_solve = rng.random() < 0.25
     while len(ops) < nops:
         r = rng.random()
         if r < 0.10:
@@ -52,11 +62,11 @@ def gen_scenario(rng, nops=None, max_dec=4):
                 twins.append((nobj - 1, nobj))
                 nobj += 1
         elif r < 0.38 and len(parts) < MAX_PARTS:
-            ops.append(("WPart", rng.choice([1, 2, 2, 3, 3, 4])))
-            parts.append(ops[-1][1])
-            dec.append([])
+            new_part()
         elif r < 0.44 and mid_cons:
             ops.append(("WCons", rng.randrange(len(parts))))
+        elif r < 0.48 and mid_solve:
+            ops.append(("WSolve",))
         else:
             p = rng.randrange(len(parts))
             d = parts[p]
@@ -79,10 +89,17 @@ def gen_scenario(rng, nops=None, max_dec=4):
             if k < d and rng.random() < 0.5:             # ask for the other blocks too
                 for k2 in rng.sample(range(d), d):
                     ops.append(("WGet", p, obj, k2))
-    for p in range(len(parts)):                          # solve time: every partition, once or twice
-        ops.append(("WCons", p))
-        if rng.random() < 0.5:
+    if len(parts) < MAX_PARTS and rng.random() < 0.25:   # a partition declared after use, never used
+        new_part()
+    if rng.random() < 0.6:                               # solve time through pep.solve(), once or twice
+        ops.append(("WSolve",))
+        if rng.random() < 0.4:
+            ops.append(("WSolve",))
+    if ops[-1][0] != "WSolve" or rng.random() < 0.4:     # add_partition_constraints called by hand, once or twice
+        for p in range(len(parts)):
             ops.append(("WCons", p))
+            if rng.random() < 0.5:
+                ops.append(("WCons", p))
     return ops
 
 
@@ -94,7 +111,10 @@ def coq_op(op):
     if h == "WTerm":
         return "WTerm %s" % T.coq_term(op[1])
     if h == "WPart":
-        return "WPart %s" % coq_nat(op[1])
+        how = op[2] if len(op) > 2 else "pep"
+        return "%s %s" % ("WPartC" if how == "ctor" else "WPart", coq_nat(op[1]))
+    if h == "WSolve":
+        return "WSolve"
     if h == "WGet":
         return "WGet %s %s %s" % (coq_nat(op[1]), coq_nat(op[2]), coq_nat(op[3]))
     if h == "WCons":
@@ -136,6 +156,7 @@ class Run(object):
     def __init__(self, ops, values=None):
         from PEPit import PEP, Point
         self.Point = Point
+        self.other = PEP()        # another PEP object, created first: the PEP() below resets the class-level state
         self.pep = PEP()
         self.ops = ops
         self.objs = []
@@ -176,7 +197,14 @@ class Run(object):
             return [n, T.dump_pdict(pt.decomposition_dict, LeafIds())]
         if h == "WPart":
             n = len(self.parts)
-            part = self.pep.declare_block_partition(d=op[1])
+            how = op[2] if len(op) > 2 else "pep"
+            if how == "ctor":
+                from PEPit import BlockPartition
+                part = BlockPartition(d=op[1])
+            elif how == "other":
+                part = self.other.declare_block_partition(d=op[1])
+            else:
+                part = self.pep.declare_block_partition(d=op[1])
             self.parts.append(part)
             if self.values is not None:
                 self.values.new_partition(n, op[1])
@@ -237,6 +265,30 @@ class Run(object):
                 self.problem("constraint-list-grows-when-regenerated", i, before=self.ncons[key], now=len(lst))
             self.ncons[key] = len(lst)
             return [T.dump_constraint(c, LeafIds(), NoExprs()) for c in lst]
+        if h == "WSolve":
+            from . import recording
+            w, _ = recording.solve_with(self.pep, recording.RecordingWrapper)
+            sent = list(self.pep._list_of_constraints_sent_to_wrapper)
+            received = [e[1] for e in w.events if e[0] == "send"]
+            if [id(c) for c in sent] != [id(c) for c in received]:
+                self.problem("tracking-list-differs-from-what-the-wrapper-received", i)
+            # every partition ever created (whatever the way, whatever the others look like): all its relations
+            # are formulated and every one of them reaches the wrapper
+            for p, part in enumerate(self.parts):
+                d = part.get_nb_blocks()
+                m = len(part.blocks_dict)
+                expected = m * m * d * (d - 1) // 2
+                how = [o for o in self.ops if o[0] == "WPart"][p]
+                if len(part.list_of_constraints) != expected:
+                    self.problem("partition-relations-not-formulated-at-solve", i, partition=p, declared=list(how),
+                                 formulated=len(part.list_of_constraints), expected=expected)
+                    continue
+                n_sent = sum(1 for c in part.list_of_constraints if any(c is s_ for s_ in received))
+                if n_sent != expected:
+                    self.problem("partition-relations-not-sent-to-the-solver", i, partition=p, declared=list(how),
+                                 sent=n_sent, expected=expected,
+                                 partitions=[(q.get_nb_blocks(), len(q.blocks_dict)) for q in self.parts])
+            return [T.dump_constraint(c, LeafIds(), NoExprs()) for c in sent]
         raise ValueError(h)
 
     def solve_time_loop(self):
